@@ -543,12 +543,24 @@ pub fn c08(case_seed: u64, acc: &mut Acc) {
     let mut trees = vec![];
     let mut zx_tree = None;
     let mut tries = 0;
-    while trees.len() < 6 && tries < 60 {
+    // now and then a long program: 40 trees, each wrapped in ite(..) calls - well over a hundred
+    // function calls in one test (state that a parser might carry from one expression to the next)
+    let long = r.chance(20, 1000);
+    let want = if long { 40 } else { 6 };
+    if long {
+        acc.tag("long_program_100+_function_calls");
+    }
+    while trees.len() < want && tries < 60 + 10 * want {
         tries += 1;
         let d = 1 + r.below(6);
         let t = {
             let mut g = EG { r: &mut r, vars: var_vals.iter().map(|v| v.0.clone()).collect(), outs: vec!["P".into(), "R".into(), "S".into()], zq: true };
             g.tree(d, false)
+        };
+        let t = if long {
+            Expr::Ite(Box::new(Expr::Num((tries & 1) as i64, Radix::Dec)), Box::new(t.clone()), Box::new(Expr::Ite(Box::new(Expr::Ident("x".into())), Box::new(t), Box::new(Expr::Num(1, Radix::Dec)))))
+        } else {
+            t
         };
         match eval_tree(&t, &env) {
             Ok(_) => {
